@@ -20,7 +20,7 @@ from ..kernel import Discard, EventLog, InjectedFault, Violation, adigest, close
 PROP = "C15"
 
 EVIDENCE = {
-    "probes_expected": ["restart-performed", "refined-twin-compared", "pseudo-elastic-unloading-point", "plastic-point", "failure-then-stop", "commit-seen", "repeat-level-compared"],
+    "probes_expected": ["restart-performed", "refined-twin-compared", "pseudo-elastic-unloading-point", "plastic-point", "failure-then-stop", "commit-seen", "repeat-level-compared", "retry-after-failure-compared"],
     "clauses_sampled_only": [],
 }
 
@@ -354,6 +354,9 @@ def run(doc, log):
     # path independence for elastic materials ---------------------------------------------------
     if fault_free and exc is None and opts.get("refine") and is_elastic(doc):
         refine_check(doc, eng, log)
+    # failure, then continuation on the SAME objects from the last converged state --------------
+    if exc is not None and eng.fired and opts.get("retry", True):
+        retry_check(doc, eng, exc, log)
     fired = [f["kind"] for f in eng.fired]
     disp = float(max(np.abs(v).max() for v in eng.callbacks[-1]["x"])) if eng.callbacks else 0.0
     sig = "|".join(
@@ -458,6 +461,67 @@ def restart_check(doc, eng, ra, drop_state, log):
         if not ok:
             raise Violation(PROP, "restart-equivalence", f"item {k}: state variables after restart differ (rel {rel:.2e})", site="restart.statevars")
     log.count("restart-performed")
+
+
+def retry_check(doc, eng, exc, log):
+    """A substep failed (injected fault). The caller restores the last converged displacements
+    and runs the rest of the history with a healthy solver on the very same item objects. The
+    result must be the fault-free history: a failed attempt leaves nothing behind."""
+    w = eng.w
+    ncb = len(eng.callbacks)
+    nall = total_substeps(doc)
+    if ncb >= nall:
+        return
+    # fault-free twin from scratch
+    d2 = copy.deepcopy(doc)
+    d2["faults"] = []
+    log2 = EventLog()
+    eng2, exc2, _ = simulate(d2, log2, monitors=False)
+    if exc2 is not None:
+        if isinstance(exc2, ValueError):
+            raise Discard("fault-free-twin-did-not-converge")
+        raise exc2
+    # restore the last converged state on the live objects
+    if ncb:
+        last = eng.callbacks[-1]["x"]
+    else:
+        last = [np.zeros_like(f.values) for f in w.field.fields]
+    w.set_values(last)
+    j, i = flat_index(doc, ncb)  # first substep to be (re-)run
+    rest = []
+    s = copy.deepcopy(doc["steps"][j])
+    for r in s["ramp"]:
+        r["values"] = r["values"][i:]
+    rest.append(s)
+    for jj in range(j + 1, len(doc["steps"])):
+        rest.append(copy.deepcopy(doc["steps"][jj]))
+    kw = {k: v for k, v in doc.get("newton", {}).items() if k in ("tol", "maxiter")}
+    results = []
+    failed_kind = ",".join(sorted({f["kind"] for f in eng.fired}))
+    try:
+        for s in rest:
+            step = w._build_step(s)
+            for res in step.generate(verbose=False, **kw):
+                results.append(res)
+    except ValueError as e:
+        raise Violation(PROP, "retry-after-failure", f"after a failed substep ({failed_kind}) the history cannot be continued on the same objects from the last converged state: {e}", site="+".join(sorted({it["type"] for it in doc["items"]})), fault=failed_kind)
+    tail = eng2.callbacks[ncb:]
+    tol = doc.get("newton", {}).get("tol", 1.5e-8)
+    for n, (a, b) in enumerate(zip(results, tail)):
+        va = [f.values for f in a.x.fields]
+        scale = max(float(np.abs(np.concatenate([v.ravel() for v in b["x"]])).max()), 1e-2)
+        diff = max(float(np.abs(x - y).max()) for x, y in zip(va, b["x"]))
+        if diff > 2e-5 * max(1.0, tol / 1.5e-8) * scale:
+            raise Violation(PROP, "retry-after-failure", f"substep {ncb+n} re-run after a failed attempt ({failed_kind}) differs from the fault-free history by {diff:.3e} (scale {scale:.2e})", site="+".join(sorted({it["type"] for it in doc["items"]})), fault=failed_kind)
+    for k, (it_live, it_twin) in enumerate(zip(w.items, eng2.w.items)):
+        sa = getattr(getattr(it_live, "results", None), "statevars", None)
+        sb = getattr(getattr(it_twin, "results", None), "statevars", None)
+        if sa is None or sb is None or sa.size == 0:
+            continue
+        ok, rel = close_exact_twin(sa, sb, rtol=1e-4, atol=1e-9)
+        if not ok:
+            raise Violation(PROP, "retry-after-failure", f"item {k}: state variables after failure + continuation differ from the fault-free history (rel {rel:.2e})", site="statevars", fault=failed_kind)
+    log.count("retry-after-failure-compared")
 
 
 def refine_check(doc, eng, log):
